@@ -126,6 +126,10 @@ Definition envelope_checksum (e : envelope) : ecs :=
       else EcsNo a
   end.
 
+(* vocabulary for the specification (props/C30.v): what an envelope declares about
+   its blob — an unusable declaration, no digest at all, or a digest under an algorithm *)
+Inductive decl := DInvalid | DNothing | DDigest (a : alg) (hex : bytes).
+
 (* what the storage returns for a key *)
 Inductive fetched := FErr | FOk (blob : bytes).
 
